@@ -138,6 +138,17 @@ int main(int argc, char** argv) {
 #endif
     report("enqueue.fifo", quiet && g_log == "ev1 ev2 ev3 ", "C04,C13", "log=[" + g_log + "]");
   }
+  { // single-step drain: exactly the oldest pending event per call, the others stay pending (C04)
+    M m; m.start(); g_log.clear(); m.enqueue_event(ev(1)); m.enqueue_event(ev(2)); m.enqueue_event(ev(3)); std::string steps;
+    for (int k = 0; k < 3; ++k) { g_log.clear();
+#if IS_MP11
+      m.process_event_pool(1);
+#else
+      m.execute_single_queued_event();
+#endif
+      steps += "[" + g_log + "]"; }
+    report("enqueue.single-step-dispatches-exactly-the-oldest", steps == "[ev1 ][ev2 ][ev3 ]", "C04,C13", "steps=" + steps);
+  }
   { I m; g_log.clear(); m.start();   // event raised from an initial entry behaviour: only after all initial entries
     report("start.initial-entry-raises", g_log == "A0.entry{ } B0.entry A0.exit A1.entry ", "C04", "log=[" + g_log + "]"); }
   { O m; g_log.clear(); m.start();   // event raised from the machine's own on_entry during start(): processed after start, not lost
